@@ -458,6 +458,7 @@ def check_property(pid, spec, tier, replay=None, keep=False):
     all_stats = []
     violation = None
     undecided = []
+    unreproduced = []
     rc = 0
     try:
         units = spec["units"]
@@ -521,8 +522,14 @@ def check_property(pid, spec, tier, replay=None, keep=False):
                         os.makedirs(os.path.dirname(dst), exist_ok=True)
                         shutil.copy(r2.violation[0], dst)
                         violation = (dst, r2.violation[1], r2.violation[2])
+                    elif fp in (unit.get("wallclock_fps") or []):
+                        # the oracle behind this fingerprint is a wall-clock bound (bounded liveness). A bound that was
+                        # exceeded once and holds on every re-execution of the same case is a starved machine, not a
+                        # verdict: inconclusive, never a violation (and not "undecided" either: everything else was judged)
+                        unreproduced.append({"test": unit["test"], "fingerprint": fp, "msg": msg[:1500]})
+                        print("note: %s: wall-clock bound %s exceeded once, not reproducible in %d re-executions of the same case: counted as inconclusive" % (unit["test"], fp, len(candidates)), flush=True)
                     else:
-                        undecided.append("unit %s: failure %s did not reproduce from its saved case (flaky); rapid output:\n%s" % (unit["test"], fp, out[-3000:]))
+                        undecided.append("unit %s: failure %s did not reproduce from its saved case (flaky):\n%s" % (unit["test"], fp, msg[:4000]))
                 break
     except Undecided as e:
         undecided.append(str(e))
@@ -545,6 +552,8 @@ def check_property(pid, spec, tier, replay=None, keep=False):
         "inconclusive_cases": inconc,
         "known_finding_hits": known_hits,
     }
+    if unreproduced:
+        cov["unreproduced_wallclock_failures"] = unreproduced
     if extra:
         cov["extra"] = extra
     if spec.get("exhaustive"):
